@@ -349,7 +349,7 @@ func c16Body(w *W) {
 	lap("stddocs")
 	kinds := []string{`\n`, `\"`, `\\`, `\u0041`, `\u00e9`, `\ud83d\ude00`, "é", "😀", ""}
 	body := []byte("abcdefghijklmnopqrstuvwxyzABCDEFGHIJKLMNOPQRSTUVWXYZ0123456789abcdefghijklmnopqrstuvwxyz")
-	w.Note("string documents: 9 escape kinds at every position of every string length <= 70, as value and as key")
+	w.Note("string documents: 9 escape kinds at every position of every string length <= 70, as value and as key; plain strings of 65535, 65536, 65537, 70000 and 200000 bytes as value and key")
 	for l := 0; l <= 70; l++ {
 		for pos := 0; pos <= l; pos++ {
 			w.res.States++
@@ -361,6 +361,15 @@ func c16Body(w *W) {
 				w.res.Transitions++
 				c16Doc(w, "C16-strings", []byte(`{"`+s+`":["`+s+`","plain"]}`), false)
 			}
+		}
+	}
+	// very long plain strings (beyond 64 KiB), as value, as key, with and without an escape
+	w.res.States++
+	if w.Mine() {
+		for _, n := range []int{65535, 65536, 65537, 70000, 200000} {
+			long := strings.Repeat("abcdefghij", n/10+1)[:n]
+			c16Doc(w, "C16-long-strings", []byte(`["`+long+`",{"`+long+`k":"`+long+`\n"},"tail"]`), false)
+			w.res.Transitions++
 		}
 	}
 	lap("strings")
